@@ -4,7 +4,10 @@ set -u
 S=/verif/seeded/$1; C=$2; TIER=${3:-quick}; c=$(echo $C | tr A-Z a-z)
 export GOFLAGS=-mod=mod GOPROXY=off GOSUMDB=off GOTOOLCHAIN=local
 WT=$(mktemp -d /tmp/sc-XXXX); rmdir $WT; git -C /repo worktree add --detach $WT HEAD >/dev/null 2>&1
-git -C $WT apply $S/patch.diff || { echo "patch does not apply"; git -C /repo worktree remove --force $WT; exit 3; }
+# patch.diff is the change as it was made; patch_head.diff, when present, is the same change ported by hand to
+# today's HEAD (a later fix: commit rewrote the same lines)
+P=$S/patch.diff; [ -f $S/patch_head.diff ] && P=$S/patch_head.diff
+git -C $WT apply $P || { echo "patch does not apply"; git -C /repo worktree remove --force $WT; exit 3; }
 ov="{\"Replace\":{"; first=1
 for f in $(git -C $WT diff --name-only); do [ $first = 1 ] || ov="$ov,"; first=0; ov="$ov\"/repo/$f\":\"$WT/$f\""; done
 echo "$ov}}" > $WT/.ov.json
